@@ -302,7 +302,10 @@ func (mw *msgWriter) writePreformattedGenHeader(msg *Msg) {
 func (mw *msgWriter) startMP(mimeType MIMEType, boundary string) string {
 	multiPartWriter := multipart.NewWriter(mw)
 	if boundary != "" {
-		mw.err = multiPartWriter.SetBoundary(boundary)
+		// An error of an earlier write must not be lost here
+		if err := multiPartWriter.SetBoundary(boundary); err != nil && mw.err == nil {
+			mw.err = err
+		}
 	}
 
 	contentType := fmt.Sprintf("multipart/%s;\r\n boundary=%s", mimeType,
@@ -525,6 +528,9 @@ func (mw *msgWriter) writeString(s string) {
 	var n int
 	n, mw.err = io.WriteString(mw.writer, s)
 	mw.bytesWritten += int64(n)
+	if mw.err == nil && n < len(s) {
+		mw.err = io.ErrShortWrite
+	}
 }
 
 // writeHeader writes a header into the msgWriter's io.Writer.
